@@ -31,6 +31,11 @@ type Cmd struct {
 	Out   []string `json:"out,omitempty"`
 	Hold  int      `json:"hold,omitempty"`
 	Eager bool     `json:"eager,omitempty"` // sent with opoptions.WithEager; the device shows no prompt afterwards
+	// EchoStall: the device's echo of this (non-eager) command stalls after EchoKeep bytes; the command
+	// is sent with opoptions.WithTimeoutOps(TimeoutMS). Always the last command of a case.
+	EchoStall bool `json:"echo_stall,omitempty"`
+	EchoKeep  int  `json:"echo_keep,omitempty"`
+	TimeoutMS int  `json:"timeout_ms,omitempty"`
 }
 
 // Esc describes a privilege-escalation case.
@@ -43,7 +48,8 @@ type Esc struct {
 	PwText  string   `json:"pw_text"` // the password prompt the device prints
 	PwHold  int      `json:"pw_hold,omitempty"`
 	Cmd     Cmd      `json:"cmd"`
-	Success bool     `json:"success"` // expected outcome
+	Success bool     `json:"success"`            // expected outcome
+	PrivOpt bool     `json:"priv_opt,omitempty"` // api interactive: pass opoptions.WithPrivilegeLevel("privilege-exec")
 }
 
 // Desc is a complete case descriptor.
@@ -70,6 +76,12 @@ type Desc struct {
 	Post      []Cmd      `json:"post,omitempty"`
 	Fresh     bool       `json:"fresh,omitempty"` // no operation precedes a dialogue whose first event waits for the prompt
 	Esc       *Esc       `json:"esc,omitempty"`
+	// Opts: operation options passed to SendInteractive besides completion patterns / exact match:
+	// interim | nostrip | timeout | eager | privlevel | failedwhen | stoponfailed. None of them changes
+	// what an interactive send does (interim prompt patterns belong to plain sends).
+	Opts        []string `json:"opts,omitempty"`
+	InterimRe   string   `json:"interim_re,omitempty"`
+	InterimLine string   `json:"interim_line,omitempty"` // a line matching InterimRe, placed in some events' output
 	// Ops: kind "multi": several interactive operations (each with its own commands before/after) on
 	// ONE channel; the caller passes the same pattern slice to every operation with Complete != "".
 	Ops []Desc `json:"ops,omitempty"`
@@ -417,6 +429,32 @@ func genDialogueOnce(r *rand.Rand, plain bool, base *Desc, op int) Desc {
 			e.Input += string(term())
 		}
 	}
+	if n > 0 {
+		for _, o := range []string{"interim", "interim", "nostrip", "timeout", "eager", "privlevel", "failedwhen", "stoponfailed"} {
+			if r.Intn(5) == 0 && !d.hasOpt(o) {
+				d.Opts = append(d.Opts, o)
+			}
+		}
+		if d.hasOpt("interim") {
+			if r.Intn(2) == 0 {
+				d.InterimRe, d.InterimLine = `(?m)^\.\.\.\s?$`, "..."
+			} else {
+				t := "zzmore" + randStr(r, "abcdefghijklmnopqrstuvwxy", 2)
+				d.InterimRe, d.InterimLine = `(?m)^`+t+`\w*: ?$`, t+"x: "
+			}
+			// the device shows interim-looking lines ahead of some events' question / prompt -- or, in a
+			// quarter of the cases, never
+			if r.Intn(4) != 0 {
+				for k := range d.Events {
+					if r.Intn(2) == 0 {
+						e := &d.Events[k]
+						i := r.Intn(len(e.Out) + 1)
+						e.Out = append(e.Out[:i:i], append([]string{d.InterimLine}, e.Out[i:]...)...)
+					}
+				}
+			}
+		}
+	}
 	// warm-up commands: needed when the first event waits for the prompt (the session must have
 	// consumed the prompt that precedes the dialogue) and when the first event is hidden (the device
 	// must already be reading without echo)
@@ -445,6 +483,14 @@ func genDialogueOnce(r *rand.Rand, plain bool, base *Desc, op int) Desc {
 		if base == nil && (r.Intn(4) == 0 || (plain && r.Intn(2) == 0)) {
 			c := genCmd(r, term(), d.Prompt)
 			c.Eager, c.Hold = true, 0
+			d.Post = append(d.Post, c)
+		} else if base == nil && r.Intn(6) == 0 && (d.Driver == "generic" || len(d.Warm)+len(d.Post) > 0 || n > 0) {
+			// echo stall: the echo of the last command stops after EchoKeep bytes (a proper prefix)
+			c := genCmd(r, term(), d.Prompt)
+			c.EchoStall, c.EchoKeep, c.TimeoutMS = true, r.Intn(len(c.Text)), 300+100*r.Intn(4)
+			if r.Intn(3) == 0 {
+				c.EchoKeep = len(c.Text) - 1
+			}
 			d.Post = append(d.Post, c)
 		}
 	}
@@ -570,6 +616,15 @@ func (d *Desc) Sent() int {
 	return len(d.Events)
 }
 
+func (d *Desc) hasOpt(o string) bool {
+	for _, x := range d.Opts {
+		if x == o {
+			return true
+		}
+	}
+	return false
+}
+
 func (d *Desc) endsAtPrompt() bool {
 	if len(d.Events) == 0 {
 		return true
@@ -675,6 +730,7 @@ func GenEscalation(r *rand.Rand) Desc {
 		}
 	}
 	for {
+		e.PrivOpt = r.Intn(2) == 0
 		e.Cmd = Cmd{Text: "show " + genInput(r, termChars[r.Intn(len(termChars))]), Out: genOut(r, 3)}
 		// echo precondition against a superset of what the escalation leaves unread
 		stale := d.Host + "#" + d.NL + d.Host + "(config)#" + d.NL + "configure terminal" + d.NL +
@@ -784,6 +840,13 @@ func GenWedge(r *rand.Rand) Desc {
 			}
 		}
 		d.Post = nil
+		var keep []string
+		for _, o := range d.Opts {
+			if o != "timeout" { // the session's short timeout must be the one that applies
+				keep = append(keep, o)
+			}
+		}
+		d.Opts = keep
 		k := r.Intn(d.Sent())
 		d.Wedge = &Wedge{Input: d.Events[k].Input, What: "event", Event: k}
 		// the held input must be recognisable among the writes
